@@ -1275,9 +1275,11 @@ class CodeGenerator(NodeVisitor):
         self.enter_frame(loop_frame)
 
         self.writeline("_loop_vars = {}")
-        self.blockvisit(node.body, loop_frame)
         if node.else_:
+            # Reset at the start of the body, a break or continue in the
+            # body must not make the else branch run.
             self.writeline(f"{iteration_indicator} = 0")
+        self.blockvisit(node.body, loop_frame)
         self.outdent()
         self.leave_frame(
             loop_frame, with_python_scope=node.recursive and not node.else_
